@@ -114,7 +114,7 @@ def one_case(seed, idx):
     try:
         for name, snippet, off in all_bad:
             pos = r.choice(points)
-            placement = r.choice(["main", "included", "after-include", "first-lines"])
+            placement = r.choice(["main", "included", "after-include", "first-lines", "twice"])
             new_lines = lines[:pos] + snippet + lines[pos:]
             if r.random() < 0.3 and pos > 1:
                 # a text line holding a character that str.splitlines() - but not the compiler's split("\n") - treats as a line end
@@ -127,6 +127,11 @@ def one_case(seed, idx):
             if placement == "main":
                 files = {main: new_lines}
                 exp_file, exp_line = main, pos + off + 1
+            elif placement == "twice":
+                # a snippet of plain text included twice - first on the very first line of the main file, then inside the
+                # passage just above the construct
+                files = {main: ["@include parts/inc.bard"] + new_lines[:pos] + ["@include parts/inc.bard"] + new_lines[pos:], inc: ["snippet text", "more snippet"]}
+                exp_file, exp_line = main, 1 + pos + 1 + off + 1
             elif placement == "first-lines":
                 # the main file's first line is the @include, the construct stands on the first line(s) of the included file
                 files = {main: ["@include parts/inc.bard"] + lines, inc: snippet + ["", ":: Inc_Part", "text"]}
@@ -158,7 +163,7 @@ def one_case(seed, idx):
                     f.write("\n".join(ls))
             kind, rf, rl, msg = compile_and_locate(main)
             results.append({"name": name, "placement": placement, "pos": pos, "kind": kind, "file": rf, "line": rl,
-                            "exp_file": exp_file, "exp_line": exp_line, "msg": msg[:300],
+                            "exp_file": exp_file, "exp_line": exp_line, "msg": msg[:300], "full": msg[:2000],
                             "files": {os.path.relpath(p, d): "\n".join(ls) for p, ls in files.items()}})
     finally:
         shutil.rmtree(d, ignore_errors=True)
@@ -181,6 +186,23 @@ def judge(res):
         (res["file"] is not None and os.path.realpath(res["file"]) == os.path.realpath(res["exp_file"]))
     # compare by file name tail (the temp dir is gone)
     ok_file = ok_file or (res["file"] is not None and os.path.basename(res["file"]) == os.path.basename(res["exp_file"]))
+    # the context lines shown around the error carry the numbers they have in the file they come from
+    files_ = {os.path.basename(k): v.split("\n") for k, v in res["files"].items()}
+    boundaries = re.findall(r"^\s+--- from (.+) ---$", res.get("full", ""), re.M)
+    cur = None if boundaries else os.path.basename(res["file"] or "main.bard")
+    for ln in res.get("full", "").split("\n"):
+        b = re.match(r"^\s+--- from (.+) ---$", ln)
+        if b:
+            cur = os.path.basename(b.group(1))
+            continue
+        g = re.match(r"^\s*(-?\d+) \| (.*)$", ln)
+        if g:
+            num, text = int(g.group(1)), g.group(2)
+            cands = [files_[cur]] if cur in files_ else list(files_.values())
+            if not any(0 < num <= len(c) and c[num - 1].strip() == text.strip() for c in cands):      # (loop bodies are shown dedented)
+                f.append({"cls": None, "what": f"{res['name']} ({res['placement']}): the context of the diagnostic shows {text!r} as line {num}"
+                                               f"{' of ' + cur if cur else ''}; no such line stands there"})
+                return f, "wrong-context"
     if not ok_file or res["line"] != res["exp_line"]:
         f.append({"cls": None, "what": f"{res['name']} placed in {os.path.basename(res['exp_file'])} line {res['exp_line']} "
                                        f"({res['placement']}) is reported in {os.path.basename(res['file'] or 'main.bard')} line {res['line']}"})
